@@ -18,9 +18,13 @@
         -> ok <legacy> <bip143> <bip341-keypath>     the digests `c02Crypto` (Spec/WalletTxDigest.lean) computes from the
            SKELETON of the transaction for input i: SIGHASH_ALL legacy and BIP143 digest for the script code / amount,
            SIGHASH_DEFAULT key-path digest ("-" where the model function hands out no digest)
+    signrfc <priv32> <digest>                             -> ok <der> | none
+           `txSignRfc` (Model/WalletDer.lean): C03's model of btc.EcdsaSign with -rfc6979 (RFC6979 nonce, Signature.Sign)
+           followed by the DER assembly of Tx.Sign / Tx.SignWitness — the signature bytes WITHOUT the hash-type byte
 -/
 import GocoinV.Model.WalletTx
 import GocoinV.Spec.WalletTxDigest
+import GocoinV.Model.WalletDer
 import GocoinV.Base.Ripemd160
 import GocoinV.Base.Sha256
 import GocoinV.Base.Proto
@@ -149,6 +153,14 @@ def step (st : St) (toks : List String) : St × String :=
       let sk := skeleton t
       (st, s!"ok {Hex.encode (C.legacyDigest sk i sc 1)} {Hex.encode (C.witnessDigest sk i sc amount 1)} {Hex.encode (C.taprootDigest sk spent i 0)}")
     | _, _, _, _, _, _, _, _ => bad
+  | ["signrfc", priv, dg] =>
+    match Hex.decode priv, Hex.decode dg with
+    | some priv, some dg =>
+      if priv.length ≠ 32 ∨ dg.length ≠ 32 then bad else
+      match txSignRfc sha256 priv dg with
+      | some der => (st, s!"ok {Hex.encode der}")
+      | none => (st, "none")
+    | _, _ => bad
   | _ => bad
 
 def main : IO Unit := Proto.serve ({} : St) step
